@@ -67,6 +67,7 @@ def gen_errorfree(draw):
             phasing[s][name] = {"sets": sets, "unphased": unph, "swap": {str(k): v for k, v in swap.items()}}
     c["phasing"] = phasing
     c["enc"] = draw(st.sampled_from(["PS", "PS", "HP"]))
+    c["ps_label"] = draw(st.sampled_from(["first", "first", "last", "arbitrary"]))
     # decorate reads
     extra = []
     for i, sp in enumerate(c["read_specs"]):
@@ -128,6 +129,19 @@ def gen_errorfree(draw):
     return c
 
 
+def set_label(case, variants, sets, k):
+    """PS value of the k-th phase set of a contig: by default the 1-based position of its first variant (as whatshap phase
+    names sets); a VCF may use any integer - case["ps_label"] = "last" names a set by its last variant, "arbitrary" by a
+    number unrelated to positions"""
+    members = [i for i, x in enumerate(sets) if x == k]
+    mode = case.get("ps_label", "first")
+    if mode == "last":
+        return variants[members[-1]]["pos"] + 1
+    if mode == "arbitrary":
+        return 1000003 + 17 * k
+    return variants[members[0]]["pos"] + 1
+
+
 def write_phased_vcf(case, path, swap_extra=None):
     """phased VCF from the case's phasing; returns truth {sample: {(contig, vi): (set id, hap order)}}"""
     truth = {}
@@ -152,8 +166,7 @@ def write_phased_vcf(case, path, swap_extra=None):
                     hc = case["haps"][s][name]
                     al = [h[vi] for h in hc]
                     k = ph["sets"][vi]
-                    first = min(i for i, x in enumerate(ph["sets"]) if x == k)
-                    sid = variants[first]["pos"] + 1
+                    sid = set_label(case, variants, ph["sets"], k)
                     if vi in case.get("missing_gt", {}).get(name, []):
                         cols.append("./.:.")
                         continue
@@ -383,8 +396,7 @@ class ErrorFreePart:
             run_tool(vcf2, bam, out2, ref, o)
             with pysam.AlignmentFile(out2, check_sq=False) as f:
                 res2 = list(f.fetch(until_eof=True))
-            first = min(i for i, x in enumerate(case["phasing"][s][cname]["sets"]) if x == k)
-            sid = case["variants"][cname][first]["pos"] + 1
+            sid = set_label(case, case["variants"][cname], case["phasing"][s][cname]["sets"], k)
             if len(res2) != len(res):
                 ctx.violation("haplotag:relabel", "record count changes %d -> %d" % (len(res), len(res2)))
             else:
